@@ -67,6 +67,11 @@ fn gen_case(rng: &mut Rng) -> Case {
         ascii_only(&mut doc);
     }
     sc.doc = doc;
+    if rng.chance(1, 4) {
+        // tuning knobs (hook): tiny text decoder buffer / no fast path => more, smaller text chunks
+        sc.text_buf = rng.pick(&[8usize, 13, 16, 31, 64]);
+        sc.no_fast_text = rng.chance(1, 3);
+    }
     // handlers that do not look at the attribute list before editing it (lazily built state)
     sc.blind = rng.chance(1, 3);
     let kind = rng.pick(wl::SCHED_KINDS);
